@@ -1,3 +1,426 @@
 import Driver.Common
--- stub driver for C14 (replaced when the property's model is built)
-def main (args : List String) : IO UInt32 := Driver.main' (fun _ => "bad-op") (fun _ _ => "fail bad-op") args
+import GilVerif.Model.C14
+open Driver GilVerif.Model.C14
+
+/-! model observations and Spec judge for the C14 op lines (formats: harness/C14/*.cpp) -/
+
+def hexDigit (n : Nat) : Char := "0123456789abcdef".toList.getD n '0'
+def hexN (digits v : Nat) : String :=
+  String.ofList ((List.range digits).reverse.map (fun i => hexDigit ((v >>> (4 * i)) % 16)))
+
+def hexPixels (bits : Nat) (px : List (List Nat)) : String :=
+  let d := if bits ≤ 8 then 2 else 4
+  if px.isEmpty then "-" else String.join (px.map (fun p => String.join (p.map (hexN d))))
+
+def dumpHex {t : Tag} (v : View t) (bits : Nat) (m : Mem) : String := hexPixels bits (v.dump m)
+
+def heap0 : Heap := ⟨⟨fun _ => 0⟩, 1000⟩
+
+def listOf (name : String) : List Fmt := if name == "L6" then L6 else L7
+
+def b01 (b : Bool) : String := if b then "1" else "0"
+
+/-- toggle bit 0 of physical channel 0 of pixel (x,y), when inside the view -/
+def toggleAt {t : Tag} (v : View t) (m : Mem) (x y : Int) : Mem :=
+  if 0 ≤ x ∧ 0 ≤ y ∧ x < v.w ∧ y < v.h then
+    let c := v.cell x.toNat y.toNat 0
+    upd m c (m c ^^^ 1)
+  else m
+
+def dposXY (w : Nat) (dpos : Int) : Int × Int :=
+  if w > 0 ∧ dpos ≥ 0 then (dpos % w, dpos / w) else (-1, -1)
+
+/-! #### xf -/
+
+def parseXf (ws : List String) : Option (String × Xf) :=
+  match ws with
+  | ["id"] => some ("id", .id) | ["flipud"] => some ("flipud", .flipUD) | ["fliplr"] => some ("fliplr", .flipLR)
+  | ["transpose"] => some ("transpose", .transpose) | ["rot90cw"] => some ("rot90cw", .rot90cw)
+  | ["rot90ccw"] => some ("rot90ccw", .rot90ccw) | ["rot180"] => some ("rot180", .rot180)
+  | [o, a, b, c, d] =>
+    if o == "sub" || o == "sub5" then
+      match a.toNat?, b.toNat?, c.toNat?, d.toNat? with
+      | some a, some b, some c, some d => some (o, .sub a b c d)
+      | _, _, _, _ => none
+    else none
+  | [o, a, b] =>
+    if o == "subs" || o == "subs2" then
+      match a.toNat?, b.toNat? with
+      | some a, some b => some (o, .subs a b)
+      | _, _ => none
+    else none
+  | [o, a] =>
+    if o == "nth" then a.toNat?.map (fun n => (o, .nth n))
+    else if o == "cc" || o == "anycc" then (Fmt.parse a).map (fun f => (o, .cc f .default))
+    else if o == "ccx" || o == "anyccx" then (Fmt.parse a).map (fun f => (o, .cc f .sum))
+    else none
+  | _ => none
+
+/-- the type list an xf op runs on (the harness uses L6 where the operation on the concrete g1 object does not
+    compile either / the library documents homogeneous pixels only) -/
+def xfList (x : Xf) : List Fmt :=
+  match x with
+  | .nth _ => L6
+  | .cc d _ => if d.cs = .rgba then L6 else L7
+  | _ => L7
+
+def xfWritable : Xf → Bool | .cc _ _ => false | _ => true
+
+def descr {t : Tag} (r : View t) (bits : Nat) (m : Mem) : String :=
+  s!"w={r.w} h={r.h} nc={t.fmt.nc} sz={r.w * r.h} px={dumpHex r bits m}"
+
+def modelXf (ws : List String) : String :=
+  match ws with
+  | T :: w :: h :: s :: rest =>
+    match Fmt.parse T, w.toNat?, h.toNat?, s.toNat?, parseXf rest with
+    | some f, some w, some h, some s, some (name, x) =>
+      let L := xfList x
+      if !L.contains f then "bad-type" else
+      let (img, hp) := heap0.make f w h s
+      let v := img.view
+      let r := x.apply v
+      let t' := x.tag (Tag.ofFmt f)
+      let idx := indexOf t' (L.map (fun g => x.tag (Tag.ofFmt g)))
+      let d := descr r t'.fmt.bits hp.mem
+      let m' := if xfWritable x then toggleAt r hp.mem 0 0 else hp.mem
+      let src := dumpHex v f.bits m'
+      let C := s!"C:ok {d} src={src}"
+      if knownNoCompile.contains name then s!"A:err:no-compile | {C}"
+      else s!"A:ok i={idx} ty=1 {d} src={src} | {C}"
+    | _, _, _, _, _ => "bad-op"
+  | _ => "bad-op"
+
+/-! #### binary algorithms -/
+
+inductive BinAlg where | copy | equal | ccopy (c : Conv) | rs (mat : List Int) | rsz
+
+def parseBin (name : String) (extra : List String) : Option BinAlg :=
+  match name, extra with
+  | "copy", [] => some .copy | "equal", [] => some .equal
+  | "ccopy", [] => some (.ccopy .default) | "ccopyx", [] => some (.ccopy .sum)
+  | "rsz", [] => some .rsz
+  | "rs", e => if e.length = 6 then (ints e).map .rs else none
+  | _, _ => none
+
+def modelBin (name : String) (ws : List String) : String :=
+  match ws with
+  | _mode :: T1 :: T2 :: w1 :: h1 :: w2 :: h2 :: s1 :: s2 :: dpos :: extra =>
+    match Fmt.parse T1, Fmt.parse T2, [w1, h1, w2, h2, s1, s2].mapM String.toNat?, dpos.toInt?, parseBin name extra with
+    | some f1, some f2, some [w1, h1, w2, h2, s1, s2], some dpos, some alg =>
+      let L := match alg with | .ccopy _ => L6 | _ => L7
+      if !(L.contains f1 && L.contains f2) then "bad-type" else
+      let (ia, hp1) := heap0.make f1 w1 h1 s1
+      let (ib, hp2) := hp1.make f2 w2 h2 s2
+      let va := ia.view; let vb := ib.view
+      let (tx, ty) := dposXY w2 dpos
+      let m0 := toggleAt vb hp2.mem tx ty
+      let d0 := dumpHex vb f2.bits m0
+      let a : AnyView := wrap va; let b : AnyView := wrap vb
+      let compat := compatible f1 f2
+      let (st, r, m1) : String × String × Mem := match alg with
+        | .copy => match anyCopyPixels a b m0 with | (.ok _, m) => ("ok", "", m) | (.error _, m) => ("err:bad_cast", "", m)
+        | .equal => match anyEqualPixels a b m0 with | (.ok e, m) => ("ok", " r=" ++ b01 e, m) | (.error _, m) => ("err:bad_cast", "", m)
+        | .ccopy c => match anyCopyAndConvert c a b m0 with | (.ok _, m) => ("ok", "", m) | (.error _, m) => ("err:bad_cast", "", m)
+        | .rs mat => match anyResample mat a b m0 with | (.ok _, m) => ("ok", "", m) | (.error _, m) => ("err:bad_cast", "", m)
+        | .rsz => match anyResize a b m0 with | (.ok _, m) => ("ok", "", m) | (.error _, m) => ("err:bad_cast", "", m)
+      let dst := dumpHex vb f2.bits m1
+      let src := dumpHex va f1.bits m1
+      let needsCompat := match alg with | .ccopy _ => false | _ => true
+      let C := if compat || !needsCompat then s!"C:ok{r} dst={dst}" else "C:n/a"
+      s!"compat={b01 compat} A:{st}{r} dst={dst} src={src} | {C} | D0={d0}"
+    | _, _, _, _, _ => "bad-op"
+  | _ => "bad-op"
+
+/-! #### unary algorithms -/
+
+def modelFill (ws : List String) : String :=
+  match ws with
+  | [T, P, w, h, s, c0, c1, c2, c3] =>
+    match Fmt.parse T, Fmt.parse P, [w, h, s, c0, c1, c2, c3].mapM String.toNat? with
+    | some f, some pf, some [w, h, s, c0, c1, c2, c3] =>
+      let (img, hp) := heap0.make f w h s
+      let v := img.view
+      let sem := ([c0, c1, c2, c3].take pf.nc).map (· % 2 ^ pf.bits)
+      let p := fromSem pf sem
+      let compat := compatible f pf
+      let d0 := dumpHex v f.bits hp.mem
+      match anyFillPixels (wrap v) pf p hp.mem with
+      | (.ok _, m) => let d := dumpHex v f.bits m; s!"compat={b01 compat} A:ok dst={d} | C:ok dst={d} | D0={d0}"
+      | (.error _, m) => s!"compat={b01 compat} A:err:bad_cast dst={dumpHex v f.bits m} | C:n/a | D0={d0}"
+    | _, _, _ => "bad-op"
+  | _ => "bad-op"
+
+def modelForeach (ws : List String) : String :=
+  match ws with
+  | [T, w, h, s] =>
+    match Fmt.parse T, [w, h, s].mapM String.toNat? with
+    | some f, some [w, h, s] =>
+      let (img, hp) := heap0.make f w h s
+      let v := img.view
+      let (n, m) := anyForEach (wrap v) hp.mem
+      let d := dumpHex v f.bits m
+      s!"A:ok n={n} dst={d} | C:ok n={n} dst={d}"
+    | _, _ => "bad-op"
+  | _ => "bad-op"
+
+/-! #### any_image / any_image_view as values -/
+
+def toggleImg (a : AnyImage) (m : Mem) (x y : Int) : Mem := toggleAt a.2.view m x y
+def dumpImg (a : AnyImage) (m : Mem) : String := dumpHex a.2.view a.1.bits m
+
+def modelImg (ws : List String) : String :=
+  match ws with
+  | ["dims", T, w, h, s] =>
+    match Fmt.parse T, [w, h, s].mapM String.toNat? with
+    | some f, some [w, h, s] =>
+      let (img, _) := heap0.make f w h s
+      let a : AnyImage := ⟨f, img⟩
+      let i := a.index L7
+      let v := a.view
+      let vi := v.index (L7.map Tag.ofFmt)
+      s!"A: i={i} w={a.width} h={a.height} dw={a.width} dh={a.height} nc={a.numChannels} | V: i={vi} w={v.width} h={v.height} nc={v.numChannels} sz={v.size} | K: i={vi} w={v.width} h={v.height} nc={v.numChannels} sz={v.size} | C: w={img.w} h={img.h} nc={f.nc} sz={img.w * img.h}"
+    | _, _ => "bad-op"
+  | ["copy", T, w, h, s] =>
+    match Fmt.parse T, [w, h, s].mapM String.toNat? with
+    | some f, some [w, h, s] =>
+      let (img, hp) := heap0.make f w h s
+      let a : AnyImage := ⟨f, img⟩
+      let (b, hp2) := a.copy hp
+      let eq0 := a.beq b hp2.mem
+      let m := toggleImg b hp2.mem 0 0
+      let eq1 := a.beq b m
+      let r := s!"eq0={b01 eq0} eq1={b01 eq1} ne1={b01 (!eq1)} a={dumpImg a m} b={dumpImg b m}"
+      s!"A: i={b.index L7} {r} | C: {r}"
+    | _, _ => "bad-op"
+  | ["assign", T1, T2, w1, h1, w2, h2, s1, s2, how] =>
+    match Fmt.parse T1, Fmt.parse T2, [w1, h1, w2, h2, s1, s2].mapM String.toNat? with
+    | some f1, some f2, some [w1, h1, w2, h2, s1, s2] =>
+      if how == "subset" && !LS.contains f1 then "bad-op" else
+      if !(how == "any" || how == "conc" || how == "subset") then "bad-op" else
+      let (ia, hp1) := heap0.make f1 w1 h1 s1
+      let (_, hp2) := hp1.make f2 w2 h2 s2           -- the old value of b
+      let a : AnyImage := ⟨f1, ia⟩
+      let (b, hp3) := a.copy hp2                      -- assignment = copy of the held image
+      let eq0 := a.beq b hp3.mem
+      let m := toggleImg b hp3.mem 0 0
+      let eq1 := a.beq b m
+      s!"A: i={b.index L7} eq0={b01 eq0} eq1={b01 eq1} w={b.width} h={b.height} a={dumpImg a m} b={dumpImg b m} | C: eq0={b01 eq0} eq1={b01 eq1} a={dumpImg a m} b={dumpImg b m}"
+    | _, _, _ => "bad-op"
+  | ["eq", T1, T2, w1, h1, w2, h2, s1, s2, dpos] =>
+    match Fmt.parse T1, Fmt.parse T2, [w1, h1, w2, h2, s1, s2].mapM String.toNat?, dpos.toInt? with
+    | some f1, some f2, some [w1, h1, w2, h2, s1, s2], some dpos =>
+      let (ia, hp1) := heap0.make f1 w1 h1 s1
+      let (ib, hp2) := hp1.make f2 w2 h2 s2
+      let a : AnyImage := ⟨f1, ia⟩; let b : AnyImage := ⟨f2, ib⟩
+      let (tx, ty) := dposXY w2 dpos
+      let m := toggleImg b hp2.mem tx ty
+      let e := a.beq b m
+      let C := if f1 = f2 then s!"C: eq={b01 e} ne={b01 (!e)}" else "C: n/a"
+      s!"A: eq={b01 e} ne={b01 (!e)} | {C}"
+    | _, _, _, _ => "bad-op"
+  | ["vcopy", T, T0, w, h, s] =>
+    match Fmt.parse T, Fmt.parse T0, [w, h, s].mapM String.toNat? with
+    | some f, some _f0, some [w, h, s] =>
+      let (img, hp) := heap0.make f w h s
+      let a : AnyImage := ⟨f, img⟩
+      let v := a.view
+      let vb := v            -- copy construction of an any_image_view
+      let vc := v            -- assignment
+      let i := v.index (L7.map Tag.ofFmt)
+      let eq2 := v.beq vb; let eq3 := v.beq vc
+      let m1 := toggleAt vb.2 hp.mem 0 0
+      let m2 := toggleAt vc.2 m1 ((w : Int) - 1) ((h : Int) - 1)
+      let (deep, hp2) := a.copy ⟨m2, hp.next⟩
+      let eqd := a.view.beq deep.view
+      let r := s!"eq2={b01 eq2} eq3={b01 eq3} eqd={b01 eqd} a={dumpImg a hp2.mem} rd={dumpHex v.2 f.bits hp2.mem}"
+      s!"A: i2={i} i3={i} {r} | C: {r}"
+    | _, _, _ => "bad-op"
+  | ["recreate", T, w, h, s, w2, h2, how] =>
+    match Fmt.parse T, [w, h, s, w2, h2].mapM String.toNat? with
+    | some f, some [w, h, s, w2, h2] =>
+      if !(how == "xy" || how == "pt" || how == "al") then "bad-op" else
+      let (img, hp) := heap0.make f w h s
+      let a : AnyImage := ⟨f, img⟩
+      let (b, _) := a.recreate w2 h2 hp
+      let v := b.view
+      s!"A: i={b.index L7} w={b.width} h={b.height} nc={b.numChannels} vw={v.width} vh={v.height} | C: w={w2} h={h2} nc={f.nc}"
+    | _, _ => "bad-op"
+  | _ => "bad-op"
+
+def model (line : String) : String :=
+  match words line with
+  | "xf" :: rest => modelXf rest
+  | "fill" :: rest => modelFill rest
+  | "foreach" :: rest => modelForeach rest
+  | "img" :: rest => modelImg rest
+  | name :: rest => if ["copy", "equal", "ccopy", "ccopyx", "rs", "rsz"].contains name then modelBin name rest else "bad-op"
+  | _ => "bad-op"
+
+/-! ### judge: the Spec of C14 evaluated on the IMPLEMENTATION's observation
+
+  The Spec never looks at the model's pixel values: it compares what came out of the run-time typed interface
+  (part `A`) with what the same call on the concrete object produced (part `C`), and checks the clauses that are
+  about the wrapper itself (alternative kept, bad_cast exactly for incompatible pairs, destination untouched on
+  bad_cast, deep / shallow copies). Only `compatible` (the relation on formats) comes from the model. -/
+
+def splitBars (s : String) : List (List String) :=
+  (s.splitOn " | ").map words
+
+def field (key : String) (toks : List String) : Option String :=
+  (toks.find? (fun t => t.startsWith (key ++ "="))).map (fun t => (t.drop (key.length + 1)).toString)
+
+/-- tokens other than the listed keys -/
+def without (keys : List String) (toks : List String) : List String :=
+  toks.filter (fun t => !(keys.any (fun k => t.startsWith (k ++ "="))))
+
+def fail (s : String) : String := "fail " ++ s
+
+def judgeXf (ws : List String) (obs : String) : String :=
+  match ws with
+  | T :: _w :: _h :: _s :: rest =>
+    match Fmt.parse T, parseXf rest, splitBars obs with
+    | some f, some (_, x), [A, C] =>
+      match A, C with
+      | st :: arest, "C:ok" :: crest =>
+        if st != "A:ok" then fail ("lifted-transformation-unavailable:" ++ st)
+        else if field "ty" arest != some "1" then fail "result-not-wrapped-in-corresponding-alternative"
+        else if without ["i", "ty"] arest != crest then
+          (if field "w" arest != field "w" crest || field "h" arest != field "h" crest then fail "dimensions-differ-from-concrete"
+           else if field "nc" arest != field "nc" crest then fail "num_channels-differs-from-concrete"
+           else if field "sz" arest != field "sz" crest then fail "size-differs-from-concrete"
+           else if field "px" arest != field "px" crest then fail "pixels-differ-from-concrete"
+           else fail "write-through-differs-from-concrete")
+        else
+          -- the alternative is the corresponding one: same position, unless the mapped list repeats the type
+          let L := xfList x
+          let mapped := L.map (fun g => x.tag (Tag.ofFmt g))
+          let own := indexOf f L
+          let expect := indexOf (x.tag (Tag.ofFmt f)) mapped
+          match (field "i" arest).bind String.toNat? with
+          | some i => if i = own || i = expect then "ok" else fail "index-not-preserved"
+          | none => fail "no-index"
+      | _, _ => fail ("unexpected-observation:" ++ obs.take 60)
+    | _, _, _ => fail ("unexpected-observation:" ++ obs.take 60)
+  | _ => fail "bad-op"
+
+def judgeBin (name : String) (ws : List String) (obs : String) : String :=
+  match ws with
+  | _mode :: T1 :: T2 :: _ =>
+    match Fmt.parse T1, Fmt.parse T2, splitBars obs with
+    | some f1, some f2, [A0, C, D0] =>
+      let compat := compatible f1 f2
+      let converting := name == "ccopy" || name == "ccopyx"
+      match A0 with
+      | cflag :: st :: arest =>
+        if cflag != s!"compat={b01 compat}" then fail "views_are_compatible-differs-from-spec-relation"
+        else if compat || converting then
+          match C with
+          | "C:ok" :: crest =>
+            if st != "A:ok" then fail ("defined-pair-does-not-succeed:" ++ st)
+            else if field "r" arest != field "r" crest then fail "return-value-differs-from-concrete"
+            else if field "dst" arest != field "dst" crest then fail "destination-differs-from-concrete"
+            else if name == "equal" && field "dst" arest != field "D0" D0 then fail "equal_pixels-modified-destination"
+            else "ok"
+          | _ => fail "concrete-call-missing"
+        else
+          if st != "A:err:bad_cast" then fail ("incompatible-pair-did-not-throw-bad_cast:" ++ st)
+          else if field "dst" arest != field "D0" D0 then fail "destination-modified-on-bad_cast"
+          else "ok"
+      | _ => fail ("unexpected-observation:" ++ obs.take 60)
+    | _, _, _ => fail ("unexpected-observation:" ++ obs.take 60)
+  | _ => fail "bad-op"
+
+def judgeFill (ws : List String) (obs : String) : String :=
+  match ws with
+  | T :: P :: _ =>
+    match Fmt.parse T, Fmt.parse P, splitBars obs with
+    | some f, some pf, [A0, C, D0] =>
+      let compat := compatible f pf
+      match A0 with
+      | cflag :: st :: arest =>
+        if cflag != s!"compat={b01 compat}" then fail "pixels_are_compatible-differs-from-spec-relation"
+        else if compat then
+          match C with
+          | "C:ok" :: crest =>
+            if st != "A:ok" then fail ("compatible-fill-does-not-succeed:" ++ st)
+            else if field "dst" arest != field "dst" crest then fail "destination-differs-from-concrete"
+            else "ok"
+          | _ => fail "concrete-call-missing"
+        else if st != "A:err:bad_cast" then fail ("incompatible-fill-did-not-throw-bad_cast:" ++ st)
+        else if field "dst" arest != field "D0" D0 then fail "destination-modified-on-bad_cast"
+        else "ok"
+      | _ => fail ("unexpected-observation:" ++ obs.take 60)
+    | _, _, _ => fail ("unexpected-observation:" ++ obs.take 60)
+  | _ => fail "bad-op"
+
+def judgeForeach (obs : String) : String :=
+  match splitBars obs with
+  | ["A:ok" :: arest, "C:ok" :: crest] =>
+    if field "n" arest != field "n" crest then fail "functor-state-differs-from-concrete"
+    else if arest != crest then fail "destination-differs-from-concrete"
+    else "ok"
+  | _ => fail ("unexpected-observation:" ++ obs.take 60)
+
+def judgeImg (ws : List String) (obs : String) : String :=
+  let parts := splitBars obs
+  match ws with
+  | "dims" :: T :: _ =>
+    match Fmt.parse T, parts with
+    | some f, ["A:" :: a, "V:" :: v, "K:" :: k, "C:" :: c] =>
+      let own := toString (indexOf f L7)
+      if field "i" a != some own || field "i" v != some own || field "i" k != some own then fail "alternative-not-kept"
+      else if field "w" a != field "w" c || field "h" a != field "h" c || field "dw" a != field "w" c || field "dh" a != field "h" c then fail "image-dimensions-differ-from-concrete"
+      else if field "nc" a != field "nc" c then fail "image-num_channels-differs-from-concrete"
+      else if without ["i"] v != c then fail "view-dims-channels-size-differ-from-concrete"
+      else if without ["i"] k != c then fail "const_view-dims-channels-size-differ-from-concrete"
+      else "ok"
+    | _, _ => fail ("unexpected-observation:" ++ obs.take 60)
+  | ["copy", T, _, _, _] | ["assign", T, _, _, _, _, _, _, _, _] =>
+    match Fmt.parse T, parts with
+    | some f, ["A:" :: a, "C:" :: c] =>
+      let empty := field "a" a == some "-"
+      if field "i" a != some (toString (indexOf f L7)) then fail "copy-does-not-hold-the-source-alternative"
+      else if field "eq0" a != some "1" then fail "copy-not-equal-to-source"
+      else if !empty && field "eq1" a != some "0" then fail "equality-not-deep"
+      else if !empty && field "a" a == field "b" a then fail "write-to-copy-not-visible-in-copy"
+      else if without ["i", "w", "h"] a != c then fail "copy-differs-from-concrete-copy"
+      else "ok"
+    | _, _ => fail ("unexpected-observation:" ++ obs.take 60)
+  | "eq" :: T1 :: T2 :: _ =>
+    match Fmt.parse T1, Fmt.parse T2, parts with
+    | some f1, some f2, ["A:" :: a, c] =>
+      if field "eq" a == field "ne" a then fail "eq-and-ne-agree"
+      else if f1 != f2 then (if field "eq" a != some "0" then fail "different-alternatives-compare-equal" else "ok")
+      else if "C:" :: a != c then fail "equality-differs-from-concrete"
+      else "ok"
+    | _, _, _ => fail ("unexpected-observation:" ++ obs.take 60)
+  | "vcopy" :: T :: _ =>
+    match Fmt.parse T, parts with
+    | some f, ["A:" :: a, "C:" :: c] =>
+      let own := some (toString (indexOf f L7))
+      if field "i2" a != own || field "i3" a != own then fail "view-copy-does-not-hold-the-source-alternative"
+      else if field "eq2" a != some "1" || field "eq3" a != some "1" then fail "view-copy-not-equal-to-source"
+      else if field "a" a != field "rd" a then fail "write-through-view-copy-not-visible-through-original"
+      else if without ["i2", "i3"] a != c then fail "view-copy-differs-from-concrete"
+      else "ok"
+    | _, _ => fail ("unexpected-observation:" ++ obs.take 60)
+  | "recreate" :: T :: _ =>
+    match Fmt.parse T, parts with
+    | some f, ["A:" :: a, "C:" :: c] =>
+      if field "i" a != some (toString (indexOf f L7)) then fail "recreate-changed-the-held-type"
+      else if without ["i", "vw", "vh"] a != c then fail "recreate-dimensions-differ-from-concrete"
+      else if field "vw" a != field "w" c || field "vh" a != field "h" c then fail "view-after-recreate-differs"
+      else "ok"
+    | _, _ => fail ("unexpected-observation:" ++ obs.take 60)
+  | _ => fail "bad-op"
+
+def judge (op obs : String) : String :=
+  match words op with
+  | "xf" :: rest => judgeXf rest obs
+  | "fill" :: rest => judgeFill rest obs
+  | "foreach" :: _ => judgeForeach obs
+  | "img" :: rest => judgeImg rest obs
+  | name :: rest => if ["copy", "equal", "ccopy", "ccopyx", "rs", "rsz"].contains name then judgeBin name rest obs else fail "bad-op"
+  | _ => fail "bad-op"
+
+def main (args : List String) : IO UInt32 := Driver.main' model judge args
